@@ -55,10 +55,11 @@ def make_image(r, bankkey, style):
                 img[row.last] = 0xFE
     else:
         img = [r.getrandbits(8) for _ in range(255)]
-        if r.random() < 0.5:
+        if r.random() < 0.8:
             for row in L.rows():
                 if row.bank == bankkey and row.kind == "scaled":
-                    img[row.first] = r.choice([0, 1, 3, 6, 0xFA, 0xFD, 0xFF])
+                    # every legal power-of-ten exponent -6..+6 and the first illegal ones on either side
+                    img[row.first] = r.choice([0, 1, 2, 3, 4, 5, 6, 6, 0xFA, 0xFA, 0xFB, 0xFC, 0xFD, 0xFE, 0xFF, 7, 0xF9])
                 if row.bank == bankkey and row.kind == "bin":
                     img[row.first] = r.choice([0, 1])
     if style == "text" or (style == "random" and r.random() < 0.5):
